@@ -498,7 +498,8 @@ def check_trees(ctx, cases):
                     terms.append("c_dump_loose_text %s %s [%s]" % (d.cel, ilist(members), "; ".join(ilist(f) for f in fs)))
                 else:
                     terms.append("c_dump %s %s" % (d.cel, args))
-                terms.append("a_dump %s %s" % (d.itree, args))
+                if strict:                    # the oracle is only compared under the strict ambient filters
+                    terms.append("a_dump %s %s" % (d.itree, args))
                 per_amb.append((name, strict, members, real))
             prepared.append((case, d, keep, per_amb))
     vals = ctx.coq_eval("c05", REQ, terms, chunk=24, timeout=900)
@@ -507,8 +508,9 @@ def check_trees(ctx, cases):
         shape = ("chained-text" if "Build_tobj" in d.cel else "plain") + ("/comment-or-pi" if "KComment" in d.cel or
                                                                         "KPI" in d.cel else "")
         for name, strict, members, real in per_amb:
-            cm, am = vals[p], vals[p + 1]
-            p += 2
+            cm = vals[p]
+            am = vals[p + 1] if strict else [100, 0, 1, 0]
+            p += 2 if strict else 1
             case0 = {"xml": case["xml"], "plan": case["plan"], "seed": case["seed"], "ambient": name,
                      "ambient_members": members, "tree": d.tree}
             if cm is None or am is None:
@@ -586,10 +588,10 @@ def run(ctx, args):
     cases = [{"xml": x, "plan": [], "seed": i} for i, x in enumerate(DOCS)]
     cases += [{"xml": "loose:" + k, "plan": [], "seed": 0} for k in ("comment", "pi", "text", "tag")]
     cases += [{"xml": x, "plan": [], "seed": i} for i, x in enumerate(DOCS_TOP)]
-    for i in range(4 if quick else 60):
+    for i in range(3 if quick else 40):
         cases.append({"xml": ctx.rng.choice(DOCS_TOP), "plan": gen_plan(ctx.rng, ctx.rng.randint(1, 6)),
                       "seed": ctx.rng.randint(0, 10 ** 6)})
-    for i in range(36 if quick else 420):
+    for i in range(24 if quick else 300):
         cases.append({"xml": ctx.rng.choice(DOCS), "plan": gen_plan(ctx.rng, ctx.rng.randint(1, 8)),
                       "seed": ctx.rng.randint(0, 10 ** 6)})
     step = 60
